@@ -96,6 +96,139 @@ def show(t):
     return "Fun<(" + ", ".join(show(x) for x in t["params"]) + "), " + show(t["ret"]) + ">"
 
 
+# ---- C15, the n-ary path: list literals and match arms of three elements, typed by the real checker
+U = lambda name, *args: {"k": "User", "name": name, "args": list(args)}
+NV, INT_T, STR_T = {"k": "NoValue"}, U("Int"), U("String")
+POOL = [("1", INT_T), ('"s"', STR_T), ("None", U("Option", NV)), ("Some(1)", U("Option", INT_T)), ('Some("s")', U("Option", STR_T)),
+        ("[]", U("List", NV)), ("[1]", U("List", INT_T)), ('["s"]', U("List", STR_T)), ('(1, "s")', {"k": "Tuple", "args": [INT_T, STR_T]}),
+        ("(1, [])", {"k": "Tuple", "args": [INT_T, U("List", NV)]}), ("(1, [2])", {"k": "Tuple", "args": [INT_T, U("List", INT_T)]}),
+        ("Ok(1)", U("Result", INT_T, NV)), ('Err("x")', U("Result", NV, STR_T)), ("[[]]", U("List", U("List", NV))),
+        ("[[1]]", U("List", U("List", INT_T))), ("Some(None)", U("Option", U("Option", NV))), ("Some(Some(1))", U("Option", U("Option", INT_T))),
+        ("[None]", U("List", U("Option", NV))), ("[Some(1)]", U("List", U("Option", INT_T)))]
+
+
+def parse_type(text):
+    """The printed form of a type (`List<Option<Int>>`, `(Int, String)`, `Fun<(Int), Unit>`) -> JSON, or None."""
+    pos = [0]
+    t = text.strip()
+
+    def ws():
+        while pos[0] < len(t) and t[pos[0]] == " ":
+            pos[0] += 1
+
+    def items(close):
+        out = []
+        ws()
+        if t[pos[0]:pos[0] + 1] == close:
+            pos[0] += 1
+            return out
+        while True:
+            out.append(ty())
+            ws()
+            c = t[pos[0]:pos[0] + 1]
+            pos[0] += 1
+            if c == close:
+                return out
+            if c != ",":
+                raise ValueError(t)
+            ws()
+            if t[pos[0]:pos[0] + 1] == close:         # trailing comma of a one-tuple
+                pos[0] += 1
+                return out
+
+    def ty():
+        ws()
+        if t[pos[0]:pos[0] + 1] == "(":
+            pos[0] += 1
+            return {"k": "Tuple", "args": items(")")}
+        j = pos[0]
+        while j < len(t) and (t[j].isalnum() or t[j] == "_"):
+            j += 1
+        name = t[pos[0]:j]
+        if not name or not name[0].isupper():
+            raise ValueError(t)
+        pos[0] = j
+        args = []
+        if t[pos[0]:pos[0] + 1] == "<":
+            pos[0] += 1
+            args = items(">")
+        if name in ("Any", "NoValue") and not args:
+            return {"k": name}
+        if name == "Fun" and len(args) == 2 and args[0]["k"] == "Tuple":
+            return {"k": "Fun", "params": args[0]["args"], "ret": args[1]}
+        return {"k": "User", "name": name, "args": args}
+    try:
+        r = ty()
+        ws()
+        return r if pos[0] == len(t) else None
+    except (ValueError, IndexError):
+        return None
+
+
+def literal_inference(ck, prop, tier, rnd):
+    """Triples of the pool as a list literal and as the arms of a three-case match: the type the real checker
+    infers (hover) must be a supertype (Types.tla Sub, evaluated by TLC) of every element's / arm's type."""
+    from common import garden, pmap
+    triples = [(a, b, c) for a in POOL for b in POOL for c in POOL]
+    rnd.shuffle(triples)
+    triples = triples[:500 if tier == "quick" else 4000]
+    # the shape a fold over the elements gets wrong when it only looks at some of them: the informative
+    # element in the middle, uninformative ones around it
+    triples += [(POOL[i], POOL[j], POOL[i]) for i in (2, 5, 13, 15, 17) for j in (3, 6, 14, 16, 18)]
+    d = scratch_dir("c15lit")
+    jobs = []
+    try:
+        for n, (a, b, c) in enumerate(triples):
+            form = "list" if n % 2 == 0 else "match"
+            if form == "list":
+                src = f"fun zf() {{\n  let zl = [{a[0]}, {b[0]}, {c[0]}]\n  //  ^\n}}\n"
+            else:
+                src = ("enum E3 { A3, B3, C3 }\nfun zf(ze: E3) {\n  let zm = match ze { A3 => { " + a[0] + " } B3 => { " + b[0] + " } C3 => { " + c[0] + " } }\n  //  ^\n}\n")
+            path = os.path.join(d, f"h{n}.gdn")
+            with open(path, "w") as f:
+                f.write(src)
+            jobs.append((form, (a, b, c), src, path))
+        outs = pmap(lambda j: garden(["reftest-hover", j[3]], timeout=20, cwd=d), jobs)
+    finally:
+        shutil.rmtree(d, ignore_errors=True)
+    judged = []
+    for (form, tr, src, _), (rc, out, err) in zip(jobs, outs):
+        ck.evaluated()
+        ck.validated()
+        key = f"{prop} inferred type of {form} " + ", ".join(x[0] for x in tr)
+        if rc is None or rc in (101, 134) or (rc is not None and rc < 0):
+            ck.fail(key, f"{key}: hover crashed or hung (exit {rc}): {err[-160:]}", {"cmd": "garden reftest-hover p.gdn", "src": src})
+            continue
+        t = parse_type(out.strip().split("\n")[0] if out.strip() else "")
+        if t is None:
+            continue                     # no type reported (incompatible elements are an error, not a type)
+        cover = t
+        if form == "list":
+            if not (t["k"] == "User" and t["name"] == "List" and len(t["args"]) == 1):
+                ck.fail(key, f"{key}: the checker reports {out.strip()[:80]!r} for a list literal", {"cmd": "garden reftest-hover p.gdn", "src": src})
+                continue
+            cover = t["args"][0]
+        judged.append((key, src, tr, cover, out.strip()))
+        ck.nontrivial(key)
+    dd = scratch_dir("types")
+    try:
+        path = os.path.join(dd, "pairs.ndjson")
+        write_ndjson(path, [{"a": x[1], "b": cover} for _, _, tr, cover, _ in judged for x in tr])
+        r5 = mc("file", 0, env={"PAIRS": path})
+    finally:
+        shutil.rmtree(dd, ignore_errors=True)
+    ck.add_tlc(r5)
+    sub = {(json.dumps(norm(z["a"]), sort_keys=True), json.dumps(norm(z["b"]), sort_keys=True)): z["ab"] for z in r5.tag("REL")}
+    for key, src, tr, cover, shown in judged:
+        for x in tr:
+            if not sub[(json.dumps(norm(x[1]), sort_keys=True), json.dumps(norm(cover), sort_keys=True))]:
+                ck.fail(key, f"{key}: the checker infers {shown}, which does not cover the element {x[0]} of type {show(x[1])} (Types.tla Sub)",
+                        {"cmd": "garden reftest-hover p.gdn", "src": src})
+                break
+    vacuity(len(judged) > 100, f"only {len(judged)} literals got a type")
+    return len(judged)
+
+
 def run_prop(prop, tier, seed):
     ck = Check(prop, "model_checking", tier, seed)
     rnd = random.Random(seed)
@@ -172,11 +305,13 @@ def run_prop(prop, tier, seed):
                     ck.fail(key, f"unify({show(r['a'])}, {show(r['b'])}) = {show(g)}, which is not a supertype of {show(r[side])} (Types.tla Sub)",
                             {"cmd": "garden verif-batch subtype", "a": r["a"], "b": r["b"], "real": g})
                     break
+    nlit = literal_inference(ck, prop, tier, rnd) if prop == "C15" else 0
     vacuity(related > 300, f"only {related} non-trivially related pairs")
     ck.assumptions += ["well-formed types without checker errors (Error types excluded, as the property says); nominal types are used with a fixed arity",
                        "bounded: all pairs of the 101 types of depth <= 1, all 64000 triples of the reduced signature, and seeded pairs of depth <= 3; no unbounded proof is claimed"]
     return ck.finish(rule="all 10201 pairs of Full(1) plus seeded pairs of depth <= 3 (70% are one-position mutations of each other so that related pairs are frequent); non-trivial = distinct related pairs",
-                     exhaustive=False, extra=({"unify_results_judged": len(judged), "results_other_than_the_specification_join": len(differs)} if prop == "C15" else None))
+                     exhaustive=False, extra=({"unify_results_judged": len(judged), "results_other_than_the_specification_join": len(differs),
+                                               "list_literals_and_matches_judged": nlit} if prop == "C15" else None))
 
 
 def run(tier, seed):
